@@ -501,7 +501,7 @@ Fixpoint uniq (l : list string) (seen : list string) : list string :=
 
 Inductive xrequest :=
 | XBase (r : request)                                  (* the six operations above *)
-| XUploadDir (path data : string)                      (* directory upload: a tar.gz with the single file u.txt *)
+| XUploadDir (path : string) (e : entry)                (* directory upload: a tar.gz with one entry *)
 | XDownloadAt (path : string) (offset : nat)           (* resume: ReadFileForDownloadAtOffset *)
 | XRoots.                                              (* browse action "roots" *)
 
@@ -510,13 +510,13 @@ Inductive xrequest :=
 Definition xexec (allowed : list string) (fs : fsys) (x : xrequest) : outcome :=
   match x with
   | XBase r => exec allowed fs r
-  | XUploadDir path data =>
+  | XUploadDir path e =>
     match validate_path allowed path with
     | VRefused => refused fs
     | VOk _ =>
       let cs := used_path path in
-      let '(fs1, e) := extract true cs fs [EReg "u.txt" data] in
-      match e with
+      let '(fs1, er) := extract true cs fs [e] in
+      match er with
       | Some _ => failed fs1 (changed_paths fs fs1)
       | None => {| o_fs := fs1; o_code := 0; o_payload := ""; o_chmod := None; o_touched := changed_paths fs fs1 |}
       end
